@@ -177,6 +177,11 @@ def run_check(modname, tier, seed, replay=None, only_shards=None):
             for fu in cf.as_completed(futs):
                 results.append(fu.result())
         results.sort(key=lambda r: r["shard"])
+        if hasattr(mod, "post"):
+            # cross-shard analysis (e.g. pairing a sanitised and a plain execution of the same cases)
+            extra = mod.post(results)
+            results.append(dict(shard="post", rc=0, err="", done=True, recs=extra, wall=0.0,
+                                spec=dict(name="post", shard="post")))
         return _summarise(mod, prop, tier, seed, results, findings, t0, replay)
     finally:
         shutil.rmtree(workdir, ignore_errors=True)
@@ -205,6 +210,9 @@ def _summarise(mod, prop, tier, seed, results, findings, t0, replay):
                                       obs=dict(stderr=r["err"][-1500:])))
         for rec in r["recs"]:
             st = rec.get("status", "held")
+            if st == "partial":
+                extra["partial_executions"] += 1
+                continue
             counts[st] += 1
             c = rec.get("cell")
             if c:
@@ -302,6 +310,7 @@ def _summarise(mod, prop, tier, seed, results, findings, t0, replay):
                 known_findings_observed=dict(known),
                 unknown_violations=len(unknown),
                 inconclusive_reasons=reasons,
+                inconclusive_samples=[dict(id=r.get("id"), cell=r.get("cell"), obs=r.get("obs")) for r in inconcl[:5]],
                 slack=getattr(mod, "SLACK", {}),
             ),
             assumptions=list(getattr(mod, "ASSUMPTIONS", [])),
